@@ -583,6 +583,10 @@ func main() {
 	for _, c := range scanSlotCopies(a.Repo, bad) {
 		scl = append(scl, fmt.Sprintf("    ⟨%s, %s⟩", ex.LeanString(c.typ), ex.LeanString(c.clone)))
 	}
+	var hsl []string
+	for _, h := range scanHookStores(a.Repo, httpFiles, bad) {
+		hsl = append(hsl, fmt.Sprintf("    ⟨%s, %s, %s⟩", ex.LeanString(h.pkg), ex.LeanString(h.fn), ex.LeanString(h.target)))
+	}
 	sort.Strings(shape)
 	var sl []string
 	for i, s := range shape {
@@ -590,7 +594,7 @@ func main() {
 			sl = append(sl, ex.LeanString(s))
 		}
 	}
-	fmt.Fprintf(&sb, "\n  ],\n  nodeWrites := [\n%s\n  ],\n  depthGuards := [\n%s\n  ],\n  vmCounters := [\n%s\n  ],\n  registries := [\n%s\n  ],\n  captureBinds := [\n%s\n  ],\n  slotCopies := [\n%s\n  ],\n  shape := [%s]\n}\n\nend Generated.C11Superglobals\n", strings.Join(nwl, ",\n"), strings.Join(gl, ",\n"), strings.Join(ctl, ",\n"), strings.Join(rgl, ",\n"), strings.Join(cbl, ",\n"), strings.Join(scl, ",\n"), strings.Join(sl, ", "))
+	fmt.Fprintf(&sb, "\n  ],\n  nodeWrites := [\n%s\n  ],\n  depthGuards := [\n%s\n  ],\n  vmCounters := [\n%s\n  ],\n  registries := [\n%s\n  ],\n  captureBinds := [\n%s\n  ],\n  slotCopies := [\n%s\n  ],\n  hookStores := [\n%s\n  ],\n  shape := [%s]\n}\n\nend Generated.C11Superglobals\n", strings.Join(nwl, ",\n"), strings.Join(gl, ",\n"), strings.Join(ctl, ",\n"), strings.Join(rgl, ",\n"), strings.Join(cbl, ",\n"), strings.Join(scl, ",\n"), strings.Join(hsl, ",\n"), strings.Join(sl, ", "))
 	if err := ex.WriteIfChanged(a.Out, "C11Superglobals.lean", sb.String()); err != nil {
 		fmt.Fprintln(os.Stderr, err)
 		os.Exit(1)
